@@ -24,7 +24,7 @@ type simHook struct {
 }
 
 //go:norace
-func (h *simHook) Lock(m unsafe.Pointer, try func() bool) {
+func (h *simHook) Lock(m unsafe.Pointer, name string, try func() bool) {
 	if !h.s.Active() {
 		for !try() {
 			// only reachable if a lock is taken outside a run while an abandoned
@@ -33,7 +33,7 @@ func (h *simHook) Lock(m unsafe.Pointer, try func() bool) {
 		}
 		return
 	}
-	h.s.Lock(uintptr(m), "", try)
+	h.s.Lock(uintptr(m), name, try)
 }
 
 //go:norace
@@ -142,6 +142,12 @@ func parseRaces(text string) []raceReport {
 		}
 		if cur != nil {
 			stanzas = append(stanzas, cur)
+		}
+		if strings.Contains(blk, "verif/checks.runScheduled()") {
+			// the hook variable being re-installed for a later pass while the tasks
+			// of an earlier, deadlocked pass (never joined) had read it: not a race
+			// of the code under test
+			continue
 		}
 		var funcs []string
 		harnessTop := false
